@@ -1,4 +1,5 @@
 """Rendering of derived declarations (model JSON -> #[derive(BinaryCodec)] items + glue)."""
+import hashlib
 import json
 
 from gen_rust import key
@@ -75,6 +76,10 @@ def evolution_attr(gen, fields, steps):
             parts.append('FieldMadeTransient("%s")' % n)
         else:
             raise ValueError(s["op"])
+    # the macro concatenates the steps of all `evolution` attributes: every other multi-step history is spelled
+    # with one attribute per step (the choice depends only on the history, so it is stable between runs)
+    if len(parts) >= 2 and int(hashlib.sha1(", ".join(parts).encode()).hexdigest()[:4], 16) % 2 == 0:
+        return " ".join("#[evolution(%s)]" % x for x in parts)
     return "#[evolution(%s)]" % ", ".join(parts)
 
 
